@@ -19,11 +19,16 @@ Clauses(T) ==
     [] T.kind = "dumpstruct" ->
          (IF T.obs.status = "ok" /\ Lossless(T.data, T.start, T.obs.lines) THEN {} ELSE {"dumpstruct-bytes"})
          \cup (IF T.obs.status = "ok" /\ T.obs.fields = T.fields THEN {} ELSE {"dumpstruct-fields"})
+         \* colour off = no palette: the text holds no colour code at all (finding F59)
+         \cup (IF T.obs.status = "ok" /\ ~T.color /\ T.obs.escapes > 0 THEN {"dumpstruct-colour"} ELSE {})
     [] T.kind = "pack" ->
          IF FitsInt(T.v, WBytes(T.bits), T.v.neg) /\ (T.v.neg => T.bits > 0)
          THEN (IF T.obs.status = "ok" /\ T.obs.b = PackBytes(T.v, T.bits, T.endian) THEN {} ELSE {"pack"})
               \cup (IF T.obs.status = "ok" /\ T.obs.back = T.v THEN {} ELSE {"unpack-inverse"})
          ELSE (IF T.obs.status = "ok" THEN {"pack-overflow-accepted"} ELSE {})
+    [] T.kind = "packmin" ->      \* pack(v) without a width (finding F60)
+         (IF T.obs.status = "ok" /\ T.obs.b = PackMin(T.v, T.endian) THEN {} ELSE {"pack"})
+         \cup (IF T.obs.status = "ok" /\ T.obs.back = T.v THEN {} ELSE {"unpack-inverse"})
     [] T.kind = "unpack" ->
          (IF T.obs.status = "ok" /\ T.obs.v = UnpackVal(T.b, T.endian, T.sign) THEN {} ELSE {"unpack"})
          \cup (IF T.obs.status = "ok" /\ T.obs.back = T.b THEN {} ELSE {"pack-inverse"})
